@@ -13,7 +13,8 @@ def check(ctx, rep):
         "life-cycle domain: true exactly on finished tasks (returned or raised). R01.4 the body is awaited "
         "inside its own task; the nested form returns only after the awaited inherited run. R01.5 `done` speaks "
         "about this run: the task registry of every member (nested schedulers included) is reset before the "
-        "first start and written only by the start path.")
+        "first start and written only by the start path. R01.6 of the job's mutable state is_done() reads only "
+        "that registry (any other attribute it reads is constructor-only, or reset with the registry).")
     rep.declined = ["asyncio's own semantics (T1-T3)"]
     rep.trusted = ["T1 asyncio.wait partitions its argument", "T2 create_task does not run the coroutine synchronously",
                    "T5 Task._state/_exception/_result meaning", "T8 Python MRO and short-circuit semantics"]
@@ -22,3 +23,4 @@ def check(ctx, rep):
     predicates.is_done_table(ctx, rep, "R01.3")
     common.nested_awaits_run(ctx, rep, "R01.4")
     predicates.writers_monotone(ctx, rep, "R01.5")
+    predicates.done_depends_on_registry_only(ctx, rep, "R01.6")
